@@ -13,10 +13,12 @@ MODEL `Model/Expr.lean`    – tokeniser, split scan, recursion of `EvalStrExpre
 
 What "token level" means here.  The parse theorem is about `evalToks` on `toks f`, the token list of the
 rendered formula (atoms carry their value, an operator token carries the list of `Operators[]` entries
-the candidate loop matches there).  Left to the correspondence run (checked for every generated case by
-the driver, field `lex`): `lex (render f) = toks f`, i.e. that cutting the character string at operator
-characters with the longest-match rule yields these tokens, and `ConstIntVal`/`ConstFloatVal` of a literal's
-text is the literal's value.
+the candidate loop matches there).  `lex (render f) = toks f`, i.e. that cutting the character string at operator
+characters with the longest-match rule yields these tokens and `ConstIntVal` of a literal's text is the literal's
+value, is a theorem for the fragment "integer literals, operators, parentheses, function calls" (`Props/C08_Lex.lean`:
+`C08_lex_roundtrip`, and `C08_parse_text_evalStr` = this file's parse theorem for the rendered TEXT); for float
+literals and string / character constants it is left to the correspondence run (checked for every generated case by
+the driver, field `lex`).
 -/
 namespace AslModel.C08
 open AslModel.Formula AslModel.Expr AslModel.Generated
